@@ -429,6 +429,107 @@ def _stores(st):
         yield st.target, st.value
 
 
+TO_FLOAT = ("mpf2float", "bin2float", "fraction2float", "number2float")
+DTYPE_PRESERVING = {"numpy.ldexp", "numpy.nextafter", "numpy.copysign", "numpy.negative", "numpy.positive", "numpy.abs", "numpy.absolute", "abs"}
+
+
+def check_result_format(r, repo, rule="R13.6"):
+    """The converters *to* a float format return, on every return statement, a value constructed in the requested format: a call of
+    the dtype parameter, a view/astype to it, another converter called with the same dtype, dtype-preserving numpy functions of such
+    a value, a sign change, a selection between such values, a list of such values, or arithmetic whose other operand is a Python
+    literal (weak scalar).  A product with a numpy scalar of another type (numpy.sign(int) is int64 for small integers) is promoted by
+    NumPy - int64 * float16 is float64 - and the round trip no longer returns the bit pattern of the format."""
+    n_ret = 0
+    for fname in TO_FLOAT:
+        f = repo.func(REL, fname)
+        dt = f.args.args[0].arg
+        assigns = {}
+        for n in ast.walk(f):
+            if isinstance(n, ast.Assign):
+                for t in n.targets:
+                    if isinstance(t, ast.Name):
+                        assigns.setdefault(t.id, []).append(n.value)
+            elif isinstance(n, ast.AugAssign) and isinstance(n.target, ast.Name):
+                assigns.setdefault(n.target.id, []).append(n)
+
+        def is_d(e, busy=()):
+            """-> (True, None) or (False, offending sub-expression)"""
+            if isinstance(e, ast.Call):
+                fn = dotted(e.func) or ""
+                if fn == dt:
+                    return True, None
+                if fn in TO_FLOAT and e.args and dotted(e.args[0]) == dt:
+                    return True, None
+                if isinstance(e.func, ast.Attribute) and e.func.attr in ("view", "astype") and e.args and dotted(e.args[0]) == dt:
+                    return True, None
+                if fn in DTYPE_PRESERVING and e.args:
+                    return is_d(e.args[0], busy)
+                if fn in ("list", "tuple") and len(e.args) == 1:
+                    return is_d(e.args[0], busy)
+                return False, e
+            if isinstance(e, ast.UnaryOp) and isinstance(e.op, (ast.USub, ast.UAdd)):
+                return is_d(e.operand, busy)
+            if isinstance(e, ast.IfExp):
+                a = is_d(e.body, busy)
+                return a if not a[0] else is_d(e.orelse, busy)
+            if isinstance(e, (ast.ListComp, ast.GeneratorExp)):
+                return is_d(e.elt, busy)
+            if isinstance(e, (ast.List, ast.Tuple)):
+                for x in e.elts:
+                    a = is_d(x, busy)
+                    if not a[0]:
+                        return a
+                return True, None
+            if isinstance(e, ast.BinOp):
+                sides = [e.left, e.right]
+
+                def weak(x):
+                    """a Python scalar (weakly typed under NEP 50): literals, their signs, selections between them, int()/float()"""
+                    if isinstance(x, ast.Constant):
+                        return isinstance(x.value, (int, float)) and not isinstance(x.value, bool)
+                    if isinstance(x, ast.UnaryOp) and isinstance(x.op, (ast.USub, ast.UAdd)):
+                        return weak(x.operand)
+                    if isinstance(x, ast.IfExp):
+                        return weak(x.body) and weak(x.orelse)
+                    if isinstance(x, ast.Call) and dotted(x.func) in ("int", "float"):
+                        return True
+                    return False
+
+                lits = [weak(x) for x in sides]
+                for x, lit in zip(sides, lits):
+                    if lit:
+                        continue
+                    a = is_d(x, busy)
+                    if not a[0]:
+                        return False, (a[1] if a[1] is not None else x)
+                return (True, None) if not all(lits) else (False, e)
+            if isinstance(e, ast.AugAssign):
+                return is_d(ast.BinOp(left=ast.Name(id=e.target.id, ctx=ast.Load()), op=e.op, right=e.value), busy)
+            if isinstance(e, ast.Name):
+                if e.id in busy:
+                    return True, None  # self-reference: decided by the other definitions
+                if e.id not in assigns:
+                    return False, e
+                for v in assigns[e.id]:
+                    a = is_d(v, busy + (e.id,))
+                    if not a[0]:
+                        return a
+                return True, None
+            return False, e
+
+        for n in ast.walk(f):
+            if isinstance(n, ast.Return) and n.value is not None:
+                n_ret += 1
+                ok, bad = is_d(n.value)
+                r.ob(rule, f"{REL}::{fname} `return {norm_src(n.value)[:60]}` is constructed in the requested format", ok,
+                     "" if ok else f"`{norm_src(bad)}` is not a value of the format `{dt}` (nor a Python literal): NumPy promotes the result by the types of "
+                     "both operands - e.g. numpy.sign of a small integer is numpy.int64 and int64 * float16 is float64 - so the conversion back "
+                     "returns another width and the round trip is not bit-identical", loc(REL, n))
+    if n_ret < 15:
+        raise AnalysisError(f"converters to float: only {n_ret} return statements recognised")
+
+
+
 def run(repo, tier):
     r = Report("C13", tier, repo, level="other", design_ref="§3/C13")
     r.explanation = (
@@ -440,6 +541,7 @@ def run(repo, tier):
     r.rule("R13.2", "float2expansion subtracts each word in the accumulator's own type (a Python float minus a numpy scalar is computed in the scalar's narrower type)", floor=1)
     r.rule("R13.4", "float2mpf: man * 2**exp == mantissa * 2**exponent identically, normalised to the float's own precision", floor=6)
     r.rule("R13.5", "mpf2multiword: every word carries x's sign, a slice (man & (mask << o)) >> o of its mantissa, the exponent exp + o and the slice's bit length; multiword2mpf sums every word once", floor=2)
+    r.rule("R13.6", "mpf2float, bin2float, fraction2float, number2float: every returned value is constructed in the requested format (no NumPy promotion by an operand of another type)", floor=15)
     r.rule("R13.3", "float2fraction decodes the IEEE fields exactly: for every finite bit pattern num/denom equals (-1)^s * significand * 2^exponent", floor=18)
     r.rule("R13.1", "format tables agree with IEEE-754 binary16/32/64 (widths, exponent/significand bits, precision, exponent ranges)", floor=30)
     n = check_format_dicts(r, repo)
@@ -464,4 +566,5 @@ def run(repo, tier):
     check_float2fraction_algebra(r, repo)
     check_float2mpf(r, repo)
     check_mpf2multiword(r, repo)
+    check_result_format(r, repo)
     return r
